@@ -34,7 +34,7 @@ def run_case(d, idx, fallback=False):
     res = []
     ok = True
     for prop in props:
-        env = dict(os.environ, VERIF_REPO=scratch, VERIF_NO_CONCRETISE=os.environ.get('VERIF_NO_CONCRETISE', '1'), VERIF_NO_FALLBACK=('' if fallback else '1'),
+        env = dict(os.environ, VERIF_REPO=scratch, VERIF_NO_CONCRETISE=os.environ.get('VERIF_NO_CONCRETISE', '1'), VERIF_NO_FALLBACK=('' if fallback else '1'), VERIF_NO_BOUNDED=('' if fallback else '1'),
                    VERIF_EVIDENCE_DIR=os.path.join(VERIF, '.build', 'st_evidence_%d' % idx), VERIF_BUILD_DIR=os.path.join(VERIF, '.build', 'st_build_%d' % idx),
                    VERIF_REPLAY_OUT=os.path.join(VERIF, '.build', 'st_evidence_%d' % idx))
         r = subprocess.run([os.path.join(VERIF, 'check'), prop], capture_output=True, text=True, env=env, cwd=VERIF)
@@ -63,7 +63,7 @@ def main():
     retry = []
     with cf.ThreadPoolExecutor(max_workers=4) as ex:
         for (idx, d), (d2, st, msg) in zip(list(enumerate(dirs)), ex.map(lambda t: run_case(t[1], t[0]), list(enumerate(dirs)))):
-            if st == 'MISMATCH' and 'undecided' in msg and 'expect=violation' in msg:
+            if st == 'MISMATCH' and 'expect=violation' in msg:
                 retry.append((idx, d))
                 continue
             print('%-10s %-40s %s' % (st, os.path.relpath(d, VERIF), msg))
